@@ -565,6 +565,9 @@ def structural(fn):
     """V1"""
     f = clone(fn)
     f.body = _norm_body(f.body)
+    # falling off the end returns None: a trailing `return` / `return None` of the function body says nothing
+    while len(f.body) > 1 and isinstance(f.body[-1], ast.Return) and (f.body[-1].value is None or (isinstance(f.body[-1].value, ast.Constant) and f.body[-1].value.value is None)):
+        f.body = f.body[:-1]
     f = alpha(f)
     return set_parents(ast.fix_missing_locations(f))
 
@@ -1101,9 +1104,11 @@ def substituted(fn, only=None):
                     if not (isinstance(s, ast.Assign) and len(s.targets) == 1 and isinstance(s.targets[0], ast.Name)):
                         continue
                     x = s.targets[0].id
-                    if names.get(x, 0) != 1 or x in params or x in mut_attrs:
-                        continue           # re-bound, or mutated in place (x[k] = ..., x.append(...)): not a value temporary
+                    if names.get(x, 0) != 1 or x in params:
+                        continue           # re-bound: not a value temporary
                     rhs = s.value
+                    if x in mut_attrs and not _element_ref(rhs, mut_attrs):
+                        continue           # mutated in place (x[k] = ..., x.append(...)): not a value temporary, unless it merely names an element of a container
                     if isinstance(rhs, ast.Lambda) or (only is not None and not only(rhs)):
                         continue
                     uses = [n for n in ast.walk(f) if isinstance(n, ast.Name) and n.id == x and isinstance(n.ctx, ast.Load)]
@@ -1173,6 +1178,20 @@ def substituted(fn, only=None):
             if changed:
                 break
     return set_parents(ast.fix_missing_locations(f))
+
+
+def _element_ref(e, mutated) -> bool:
+    """`c[k]` / `c[k][j]` with c a local name and k, j names or constants: the expression yields the element object itself (dict / list / array-of-rows element),
+    so a variable bound to it is a reference to that element and writing through the variable is writing through the expression -- provided the container
+    itself is not written in the function (then the element the expression names could change between the binding and the use)"""
+    n = 0
+    while isinstance(e, ast.Subscript):
+        k = e.slice
+        if not (isinstance(k, ast.Name) or (isinstance(k, ast.Constant) and isinstance(k.value, (int, str)))):
+            return False
+        e = e.value
+        n += 1
+    return n >= 1 and isinstance(e, ast.Name) and e.id not in mutated
 
 
 def _in_closure(node, root) -> bool:
